@@ -564,7 +564,53 @@ def s7(ctx, rep):
                      "mutates state without invalidating the predictor (callers invalidate)")
 
 
+def s2_policy(ctx, rep):
+    """levels selected by the data policy: under searcher_data == 'rungs' the searcher is updated exactly at rung levels and at
+    max_t; under the other policies exactly when the rung system does not flag the report as a repetition (ignore_data)"""
+    from .common import dom_guard
+    P = ctx.P
+    f = P.method("HyperbandScheduler", "_update_searcher")
+    cfg = cfg_of(f)
+    flag = [U(r.value) for r in returns_of(f) if r.value is not None]
+    if len(set(flag)) != 1:
+        raise AnchorError("HyperbandScheduler._update_searcher: returned update flag not found")
+    fv = flag[0]
+    sets = [n for n in cfg.nodes if n.kind == "stmt" and isinstance(n.ast, ast.Assign) and U(n.ast.targets[0]) == fv and isinstance(n.ast.value, ast.Constant)
+            and n.ast.value.value is True]
+    if len(sets) != 2:
+        raise AnchorError(f"HyperbandScheduler._update_searcher: {len(sets)} places set the update flag (2 confirmed: 'rungs' and the other policies)")
+    seen = set()
+    for n in sets:
+        at = set(dom_guard(ctx, f, n.id))
+        rungs = any(a[0] == "eq" and a[3] is True and "'rungs'" in (a[1], a[2]) for a in at)
+        if rungs:
+            seen.add("rungs")
+            want = None
+            for a in at:
+                if a[0] == "or":
+                    parts = {p_ for grp in a[1] for p_ in grp}
+                    if any(p_[0] == "in" and p_[2] == "self.rung_levels" and p_[3] is True for p_ in parts) and \
+                            any(p_[0] == "eq" and "self.max_t" in (p_[1], p_[2]) and p_[3] is True for p_ in parts) and len(parts) == 2:
+                        want = a
+            extra = [a for a in at if a is not want and not (a[0] == "eq" and "'rungs'" in (a[1], a[2]))]
+            rep.put(want is not None and not extra, "S2", "guarded_by", "HyperbandScheduler._update_searcher: 'rungs' policy | the level is a rung level or max_t (only)", f,
+                    n.ast, "", f"under searcher_data='rungs' the update is guarded by {sorted(map(str, at))}: levels that are no rung levels enter the surrogate data, "
+                    "or rung levels are left out")
+        else:
+            seen.add("other")
+            ok = any(a[0] == "truth" and "ignore_data" in a[1] and a[2] is False for a in at)
+            extra = [a for a in at if not (a[0] == "truth" and "ignore_data" in a[1]) and not (a[0] == "eq" and "'rungs'" in (a[1], a[2]))]
+            rep.put(ok and not extra, "S2", "guarded_by", "HyperbandScheduler._update_searcher: other policies | the report is not a repetition (ignore_data false), nothing else", f,
+                    n.ast, "", f"the update is guarded by {sorted(map(str, at))}: re-reported levels of resumed trials are added again, or fresh levels are dropped")
+    if seen != {"rungs", "other"}:
+        raise AnchorError("HyperbandScheduler._update_searcher: the two policy arms were not both recognised")
+    upd = [n.id for n in cfg.nodes if any(isinstance(x, ast.Call) and fn_name(x) == "_update_searcher_internal" for x in cfg.node_walk(n.id))]
+    oku = len(upd) == 1 and any(a[0] == "truth" and a[1] == fv and a[2] is True for a in dom_guard(ctx, f, upd[0]))
+    rep.put(oku, "S2", "guarded_by", "HyperbandScheduler._update_searcher: the searcher is updated | the update flag is set", f, None, "")
+
+
 def run(ctx, rep, tier="quick"):
+    s2_policy(ctx, rep)
     s1_keepfilter(ctx, rep)
     s2(ctx, rep)
     s3(ctx, rep)
